@@ -55,7 +55,16 @@ fn main() {
                         if let Some(first) = ops.first() {
                             if first.name == "new" {
                                 let mut sr = seg::SegRunner::new(&mut out, "replay", first.a[0], first.a[1]);
-                                for o in &ops[1..] { sr.step(o); }
+                                let mut inj: Option<usize> = None;
+                                for o in &ops[1..] {
+                                    if o.name == "@inject" { inj = Some(o.a[0] as usize); continue; }
+                                    if let Some(k) = inj.take() {
+                                        // a panic injected at the k-th callback of this operation (C18)
+                                        if !sr.step_injected(o, k) || o.name == "insert" { break; }
+                                        continue;
+                                    }
+                                    sr.step(o);
+                                }
                                 sr.end();
                             } else if first.name == "masks" {
                                 seg::seg_mask_table(&mut out);
